@@ -342,7 +342,7 @@ def run(ctx):
                 c = [k for k in f.calls() if k.bb == bb][0]
                 idx = taint.ALLOC_SINKS[callee]
                 p = op_place(c.args[idx])
-                bounds = taint.constant_bound_guards(f, bb, p["l"]) if p else []
+                bounds = taint.constant_bound_through_helpers(prog, f, bb, p["l"]) if p else []
                 if bounds or (p and taint.bounded_on_all_paths(f, bb, p["l"])):
                     ndis += 1
                     continue
@@ -433,7 +433,7 @@ def run(ctx):
             if f is None:
                 continue
             rep = [c for c in f.calls() if c.name == "alloc::str::<impl str>::repeat"]
-            ok = bool(rep) and all(taint.constant_bound_guards(f, c.bb, op_place(c.args[1])["l"]) for c in rep)
+            ok = bool(rep) and all(taint.constant_bound_through_helpers(prog, f, c.bb, op_place(c.args[1])["l"]) for c in rep)
             ctx.ob("C01.P6.explicit-limit-present", tag + what, ok, "the repeat(..) building the indentation must be bounded", f.loc)
         ush = prog.fn("minijinja::utils::untrusted_size_hint")
         ok = any(c.name.endswith("::min") for c in ush.calls())
